@@ -332,6 +332,32 @@ func c06Run(ci interface{}, r *core.Rec) {
 	}
 	other := rpar2.NewSet(slice, []rpar2.FileSpec{{Name: "zz", Data: scen.Garbage(r.Seed, 4242, 9)}})
 	foreignPkt := other.MainPacket()
+	if c.Foreign >= 0 || c.Stray != 0 || c.UnkBody == 3 {
+		// after everything else in this case: the OTHER set, whose packets this layout carries as foreign ones, is opened
+		// by itself in this process - having been passed over as a foreigner must not stick to it
+		defer func() {
+			dirO := filepath.Join(filepath.Dir(dirL), "other-set")
+			os.MkdirAll(dirO, 0755)
+			defer os.RemoveAll(dirO)
+			ioutil.WriteFile(filepath.Join(dirO, "zz"), scen.Garbage(r.Seed, 4242, 9), 0644)
+			ioutil.WriteFile(filepath.Join(dirO, "o.par2"), rpar2.Join(other.CorePackets("refwriter")...), 0644)
+			pk := other.CorePackets("refwriter")
+			for e := 0; e < 2; e++ {
+				pk = append(pk, other.RecvPacket(uint32(e), other.RecoveryBlock(e)))
+			}
+			ioutil.WriteFile(filepath.Join(dirO, "o.vol0+2.par2"), rpar2.Join(pk...), 0644)
+			var res par2.VerifyResult
+			var err error
+			if pi := core.Catch(func() { res, err = par2.Verify(filepath.Join(dirO, "o.par2"), par2.VerifyOptions{NumGoroutines: 1}) }); pi != nil {
+				r.Violate("verify-panic:"+pi.Frame, pi.Value)
+				return
+			}
+			r.AddTransitions(1)
+			if err != nil || res.ShardCounts.RepairNeeded() || res.ShardCounts.UsableParityShardCount != 2 {
+				r.Violatef("other-set-not-readable-after-being-skipped", "the set whose packets were foreign to the layout just read: Verify of its own intact directory returned %v %+v (want clean, 2 recovery blocks)", err, res.ShardCounts)
+			}
+		}()
+	}
 	unkBody := []byte("opaque!!")
 	unkSet := set.SetID
 	switch c.UnkBody {
